@@ -285,13 +285,23 @@ def check_costs(res, rng, reps):
                         dict(site, op='rotor_explicit'))
         # ga_exp / TR_biv_params_to_rotor = series exponential of the same bivector
         x = np.array([dy(rng, -2, 2, 8) for _ in range(3)] + [float(rng.uniform(-1.2, 1.2)) for _ in range(3)])
+        xs_ = []
         if np.any(np.abs(x[3:]) > 1e-3):
-            Bv = t.layout.MultiVector(rp.val_TR_biv_params_to_biv(x))
+            xs_.append(('general', x))
+        # rotation bivectors whose coefficients cancel (a rotation in the plane of e2 and e1 + e3 is theta (e23 - e12)), with and without translation
+        a_, b_ = float(rng.uniform(0.2, 1.2)), float(rng.uniform(-1.2, 1.2))
+        xs_.append(('cancelling', np.array([0.0, 0.0, 0.0, a_, b_, -(a_ + b_)])))
+        xs_.append(('cancelling', np.array([x[0], x[1], -(x[0] + x[1]), a_, -a_, 0.0])))
+        # no rotation part at all (a pure translation bivector t*ninf: exp = 1 + B exactly)
+        xs_.append(('translation-only', np.array([x[0], x[1], x[2], 0.0, 0.0, 0.0])))
+        for kind_, xx in xs_:
+            Bv = t.layout.MultiVector(rp.val_TR_biv_params_to_biv(xx))
             ser = te.exp(Bv, 40)
-            res.case(('ga_exp', tuple(x.tolist())), nontrivial=True)
-            if not (near(rp.ga_exp(Bv), ser, mag(ser), 1e-8) and near(rp.TR_biv_params_to_rotor(x), ser, mag(ser), 1e-8)):
-                res.violate('ga_exp / TR_biv_params_to_rotor differ from the series exponential of the same bivector', dict(site, x=x.tolist()), rp.ga_exp(Bv).value.tolist(),
-                            ser.value.tolist(), dict(site, op='ga_exp'))
+            res.case(('ga_exp', kind_, tuple(xx.tolist())), nontrivial=True)
+            res.count('ga_exp_' + kind_)
+            if not (near(rp.ga_exp(Bv), ser, mag(ser), 1e-8) and near(rp.TR_biv_params_to_rotor(xx), ser, mag(ser), 1e-8)):
+                res.violate('ga_exp / TR_biv_params_to_rotor differ from the series exponential of the same bivector', dict(site, x=xx.tolist(), kind=kind_),
+                            rp.ga_exp(Bv).value.tolist(), ser.value.tolist(), dict(site, op='ga_exp', kind=kind_))
 
 
 def check_planes(res, rng, reps):
